@@ -191,7 +191,45 @@ Returns:
 */
 func (ego *atString) serialize() string {
 	val := ego.getVal().(string)
-	return strconv.Quote(val)
+	return quote(val)
+}
+
+/*
+Quotes a string as a JSON string (RFC 8259): quotation mark, reverse solidus and the control
+characters U+0000 to U+001F are escaped, everything else is copied as is.
+Parameters:
+  - str - string to quote.
+
+Returns:
+  - JSON string literal.
+*/
+func quote(str string) string {
+	var result strings.Builder
+	result.WriteRune('"')
+	for _, char := range str {
+		switch char {
+		case '"':
+			result.WriteString("\\\"")
+		case '\\':
+			result.WriteString("\\\\")
+		case '\n':
+			result.WriteString("\\n")
+		case '\r':
+			result.WriteString("\\r")
+		case '\t':
+			result.WriteString("\\t")
+		default:
+			if char < 0x20 {
+				result.WriteString("\\u00")
+				result.WriteByte("0123456789abcdef"[char>>4])
+				result.WriteByte("0123456789abcdef"[char&0xf])
+			} else {
+				result.WriteRune(char)
+			}
+		}
+	}
+	result.WriteRune('"')
+	return result.String()
 }
 
 /*
